@@ -198,7 +198,7 @@ func genPred(r *hx.Rand, pool [][]byte, valid bool) ss.LogPredicate {
 		if ref.IsTopic() || !ref.Dynamic {
 			arg = word(r, pool)
 		} else {
-			arg = r.Bytes([]int{0, 1, 5, 31, 32, 33, 64, 70}[r.Intn(8)])
+			arg = r.Bytes([]int{0, 1, 5, 31, 32, 33, 64, 70, 70, 70, 1100, 3000}[r.Intn(12)])
 		}
 		vp.ByteArgs = [][]byte{arg}
 	} else {
@@ -382,6 +382,66 @@ func genLog(r *hx.Rand, d *ss.EventTriggerDefinition, pool [][]byte) *types.Log 
 	return l
 }
 
+// refMatchOne is the documented meaning of one predicate on well-formed data, read off the log independently
+// of the code under test: a topic reference is that topic, a static reference the 32-byte word at (offset-4)*32
+// of the data, a dynamic reference the ABI bytes value whose offset word is there (offset word, length word and
+// payload all inside the data). ok is false when the log is not well-formed for this predicate.
+func refMatchOne(p ss.LogPredicate, l *types.Log) (match bool, ok bool) {
+	ref := p.LogValueRef
+	var value []byte
+	switch {
+	case ref.Offset < 4:
+		if ref.Dynamic || int(ref.Offset) >= len(l.Topics) {
+			return false, false
+		}
+		value = l.Topics[ref.Offset].Bytes()
+	default:
+		at := (ref.Offset - 4) * 32
+		if at+32 > uint64(len(l.Data)) {
+			return false, false
+		}
+		w := l.Data[at : at+32]
+		if !ref.Dynamic {
+			value = w
+			break
+		}
+		off := new(big.Int).SetBytes(w)
+		if !off.IsUint64() || off.Uint64() > uint64(len(l.Data)) || off.Uint64()+32 > uint64(len(l.Data)) {
+			return false, false
+		}
+		o := off.Uint64()
+		ln := new(big.Int).SetBytes(l.Data[o : o+32])
+		if !ln.IsUint64() || ln.Uint64() > uint64(len(l.Data)) || o+32+ln.Uint64() > uint64(len(l.Data)) {
+			return false, false
+		}
+		value = l.Data[o+32 : o+32+ln.Uint64()]
+	}
+	vp := p.ValuePredicate
+	if vp.Op == ss.BytesEq {
+		if len(vp.ByteArgs) != 1 {
+			return false, false
+		}
+		return bytes.Equal(value, vp.ByteArgs[0]), true
+	}
+	if len(vp.IntArgs) != 1 {
+		return false, false
+	}
+	c := new(big.Int).SetBytes(value).Cmp(vp.IntArgs[0])
+	switch vp.Op {
+	case ss.UintLt:
+		return c < 0, true
+	case ss.UintLte:
+		return c <= 0, true
+	case ss.UintEq:
+		return c == 0, true
+	case ss.UintGt:
+		return c > 0, true
+	case ss.UintGte:
+		return c >= 0, true
+	}
+	return false, false
+}
+
 func implMatch(d *ss.EventTriggerDefinition, l *types.Log) (out string, p string) {
 	defer func() {
 		if r := recover(); r != nil {
@@ -517,6 +577,27 @@ func Run(cfg Config) (int, error) {
 				break
 			}
 			add("TD match "+ds+" "+ls, m, "match")
+			// each predicate alone, on well-formed data, means what the documentation says
+			if l.Address == d.Contract {
+				stop := false
+				for pi := range d.LogPredicates {
+					want, wf := refMatchOne(d.LogPredicates[pi], l)
+					if !wf {
+						continue
+					}
+					one := &ss.EventTriggerDefinition{Contract: d.Contract, LogPredicates: d.LogPredicates[pi : pi+1]}
+					om, _ := implMatch(one, l)
+					res.Count("match:single-predicate-reference-checked")
+					if (om == "true") != want || (om != "true" && om != "false") {
+						violate("spec", "match-semantics", fmt.Sprintf("predicate %d alone on well-formed data: Match says %s, the documented meaning is %v: d=%s log=%s", pi, om, want, ds, ls), []string{"TD match " + ds + " " + ls})
+						stop = true
+						break
+					}
+				}
+				if stop {
+					break
+				}
+			}
 			// a definition matches exactly when each of its predicates, taken alone, matches
 			if len(d.LogPredicates) > 1 && (m == "true" || m == "false") {
 				all, defined := true, true
